@@ -60,6 +60,10 @@ def lattice_stage(ctx, name, plan, clauses, cmd="c01-lattice", judge="lattice/La
         raise Infra("judge examined %d states for %d records" % (j.distinct, stats["records"]))
     rejects = [x for x in j.tagged("REJECT") if x[3] in clauses]
     ignored = len(j.tagged("REJECT")) - len(rejects)
+    undecided = len([x for x in j.tagged("NOTE") if x[2] == "undecided"])
+    guarded = stats.get("guarded", 0)
+    if guarded and undecided * 5 > guarded * 4:
+        raise Infra("%d of %d margin-guarded coarse-to-fine records undecided" % (undecided, guarded))
     if rejects:
         recs = {r["id"]: r for r in vlib.read_ndjson(rpath)}
         for (_, rid, _line, clause) in rejects:
@@ -74,7 +78,7 @@ def lattice_stage(ctx, name, plan, clauses, cmd="c01-lattice", judge="lattice/La
     ctx.counts["distinct_nontrivial"] += stats.get("nonempty", 0)
     ctx.stage(name, kind="R/V", plan=plan, records=stats["records"], nonempty=stats.get("nonempty", 0),
               triangles=stats.get("triangles", 0), rejected=len(rejects), rejects_of_other_clauses=ignored,
-              clauses=sorted(clauses))
+              clauses=sorted(clauses), margin_guarded=guarded, margin_guarded_undecided=undecided)
     if len(ctx.samples) < 4:
         first = next(iter(vlib.read_ndjson_head(rpath, 40)), None)
         if first:
